@@ -295,7 +295,7 @@ var c16Keys = []string{"a", "b", "c", "len", "max", "zz", "Name", "Inner", "P", 
 var c16MapKeys = []string{"a", "b", "c", "len", "max", "zz", "Name", "Inner", "__v", "_", "a_b", "x1"}
 
 func genLeafV(t *rapid.T) spec.V {
-	switch rapid.IntRange(0, 13).Draw(t, "leafk") {
+	switch rapid.IntRange(0, 14).Draw(t, "leafk") {
 	case 0:
 		return spec.V{K: "nil"}
 	case 1:
@@ -326,6 +326,8 @@ func genLeafV(t *rapid.T) spec.V {
 		return spec.V{K: "mapint", M: map[string]spec.V{"a": {K: "int", S: "0"}, "b": {K: "int", S: "2"}, "len": {K: "int", S: "0"}}}
 	case 12:
 		return spec.V{K: "mapstr", M: map[string]spec.V{"a": {K: "string", S: ""}, "b": {K: "string", S: "x"}}}
+	case 13:
+		return spec.V{K: rapid.SampledFrom([]string{"nilslice", "nilstrs", "nilmap", "nilmapint"}).Draw(t, "nilcoll")}
 	default:
 		return spec.V{K: "strs", L: []spec.V{{K: "string", S: "e"}}}
 	}
@@ -500,8 +502,9 @@ func TestC16Grid(t *testing.T) {
 		"len": {K: "int", S: "5"},
 		"max": {K: "string", S: "shadowed"},
 		"__v": {K: "int", S: "7"},
-		"_":   {K: "string", S: "2024-01-02T03:04:05Z"},
-		"m": {K: "map", M: map[string]spec.V{"__v": {K: "string", S: "123"}, "_": {K: "time", S: "0001-01-01T00:00:00Z"}, "a": {K: "int", S: "0"}, "n": {K: "nil"}, "np": {K: "nilptr"}, "len": {K: "int", S: "9"},
+		"nsl": {K: "nilstrs"}, "nmp": {K: "nilmap"},
+		"_": {K: "string", S: "2024-01-02T03:04:05Z"},
+		"m": {K: "map", M: map[string]spec.V{"nsl": {K: "nilslice"}, "nmp": {K: "nilmapint"}, "__v": {K: "string", S: "123"}, "_": {K: "time", S: "0001-01-01T00:00:00Z"}, "a": {K: "int", S: "0"}, "n": {K: "nil"}, "np": {K: "nilptr"}, "len": {K: "int", S: "9"},
 			"b":  {K: "map", M: map[string]spec.V{"a": {K: "float64", S: "0.1"}, "ns": {K: "nilS"}, "m": {K: "map", M: map[string]spec.V{"a": {K: "string", S: "deep"}}}}},
 			"mi": {K: "mapint", M: map[string]spec.V{"a": {K: "int", S: "0"}, "b": {K: "int", S: "2"}}},
 			"st": {K: "struct", M: map[string]spec.V{"Name": {K: "string", S: ""}, "Age": {K: "int", S: "0"}, "N": {K: "int", S: "5"}, "Any": {K: "map", M: map[string]spec.V{"a": {K: "int", S: "1"}}}}}}},
@@ -513,8 +516,8 @@ func TestC16Grid(t *testing.T) {
 		"b": {K: "dyn", L: []spec.V{{K: "int", S: "41", N: "Age"}, {K: "mapint", N: "Any", M: map[string]spec.V{"a": {K: "int", S: "0"}}}, {K: "string", S: "bob", N: "Name"}, {K: "float64", S: "0", N: "Score"}}},
 		"c": {K: "dyn", L: []spec.V{{K: "float64", S: "2.5", N: "Score"}, {K: "string", S: "", N: "Name"}}},
 	}
-	keys := []string{"a", "b", "n", "np", "ns", "m", "mi", "ms", "st", "len", "max", "zz", "Name", "Age", "Score", "Inner", "P", "Any", "Label", "N", "i", "s", "__v", "_"}
-	run := h.Begin("C16", "grid", fmt.Sprintf("bounded-exhaustive: one rich data map (nil, typed nil pointers at top level and inside maps, zero-valued int/string entries, typed maps with zero values, nested maps, structs with zero fields / nil pointer / interface holding a map, keys 'len' and 'max' colliding with builtins, keys '__v' and '_', strings that look like a timestamp or a number, Go's zero time) x every path root[.|!.]k1[.|!.]k2 over a %d-key universe (depth 0-2 with both access forms at every position), rooted at the bare name and at 'this', plus a runner without a map; oracle as in the random part; non-trivial as in the random part", len(keys)))
+	keys := []string{"a", "b", "n", "np", "ns", "m", "mi", "ms", "st", "len", "max", "zz", "Name", "Age", "Score", "Inner", "P", "Any", "Label", "N", "i", "s", "__v", "_", "nsl", "nmp"}
+	run := h.Begin("C16", "grid", fmt.Sprintf("bounded-exhaustive: one rich data map (nil, typed nil pointers at top level and inside maps, zero-valued int/string entries, typed maps with zero values, nested maps, structs with zero fields / nil pointer / interface holding a map, keys 'len' and 'max' colliding with builtins, keys '__v' and '_', strings that look like a timestamp or a number, Go's zero time, typed nil slices and maps) x every path root[.|!.]k1[.|!.]k2 over a %d-key universe (depth 0-2 with both access forms at every position), rooted at the bare name and at 'this', plus a runner without a map; oracle as in the random part; non-trivial as in the random part", len(keys)))
 	defer run.End(t)
 	var idx int64
 	try := func(c pathCase) {
